@@ -112,7 +112,7 @@ theorem findL_false_lift (ks : List Node) (c : Char) (r : List Sym) (m : Node)
             simpa [Option.elim] using hf
     · rename_i hh
       obtain ⟨r', hs, hf⟩ := findL_false_lift ks c r m h
-      exact ⟨r', hs, by simp only [findL, hh, if_false]; exact hf⟩
+      exact ⟨r', hs, by simp only [findL, hh]; exact hf⟩
 end
 
 /-! ### pattern strings -/
